@@ -73,6 +73,7 @@ type c18Layout struct {
 	MinUs   int64
 	MaxUs   int64
 	NFiles  map[string]int
+	OnHour  map[string][]int64 // measurement -> row instants that lie exactly on an hour
 }
 
 var c18Cols = []qCol{{"id", "BIGINT"}, {"time", "TIMESTAMPTZ"}, {"host", "VARCHAR"}, {"v", "BIGINT"},
@@ -120,6 +121,12 @@ func (l *c18Layout) addFile(t *rapid.T, meas string, startUs, spanUs int64, dayL
 		v := rapid.IntRange(0, 9).Draw(t, "v")
 		f.Rows = append(f.Rows, []string{fmt.Sprint(*id), qTSLit(us), "'" + host + "'", fmt.Sprint(v), c18TSNaive(ev), c18TSNaive(up)})
 		l.Instant = append(l.Instant, us, us+1, us-1)
+		if c18OnHour(us) {
+			if l.OnHour == nil {
+				l.OnHour = map[string][]int64{}
+			}
+			l.OnHour[meas] = append(l.OnHour[meas], us)
+		}
 		if us < l.MinUs {
 			l.MinUs = us
 		}
@@ -770,6 +777,71 @@ func c18Metamorphic(e *qEnv, q c18Query) (class, detail string, narrowedHint boo
 	return "", "", true
 }
 
+// c18CachePairs: two DIFFERENT statements over the same hour-aligned window -
+// one with an exclusive, one with an inclusive upper bound X, a row stamped
+// exactly at X - run back to back on the pruning handler WITHOUT clearing any
+// cache in between (both orders). Each pruned answer must equal that
+// statement's own unpruned answer; anything the pruner caches across statements
+// must therefore be keyed by everything that decides the path list.
+func c18CachePairs(t *rapid.T, e *qEnv, l *c18Layout) {
+	var meass []string
+	for _, m := range []string{"cpu", "mem"} {
+		if len(l.OnHour[m]) > 0 {
+			meass = append(meass, m)
+		}
+	}
+	if len(meass) == 0 {
+		return
+	}
+	g := &c18Gen{t: t, l: l, feat: map[string]bool{}}
+	meas := rapid.SampledFrom(meass).Draw(t, "pairmeas")
+	x := rapid.SampledFrom(l.OnHour[meas]).Draw(t, "pairx")
+	a := x - int64(rapid.IntRange(1, 30).Draw(t, "pairspan"))*c18HourUs
+	hdr := ""
+	if l.DB == "default" {
+		hdr = rapid.SampledFrom([]string{"", "default"}).Draw(t, "pairhdr")
+	} else {
+		hdr = rapid.SampledFrom([]string{"", l.DB}).Draw(t, "pairhdr")
+	}
+	f := func(us int64) string { return time.UnixMicro(us).UTC().Format("2006-01-02 15:04:05") }
+	sel := rapid.SampledFrom([]string{"SELECT id, host, v FROM ", "SELECT count(*) AS n, max(time) AS hi FROM "}).Draw(t, "pairsel")
+	excl := sel + g.tableRef(meas, hdr) + " WHERE time >= '" + f(a) + "' AND time < '" + f(x) + "'"
+	incl := sel + g.tableRef(meas, hdr) + " WHERE time >= '" + f(a) + "' AND time <= '" + f(x) + "'"
+	if rapid.Bool().Draw(t, "pairbetween") {
+		incl = sel + g.tableRef(meas, hdr) + " WHERE time BETWEEN '" + f(a) + "' AND '" + f(x) + "'"
+	}
+	texts := []string{excl, incl}
+	e.h.pruner.VerifSetEnabled(false)
+	e.h.InvalidateCaches()
+	full := []qResult{e.arcQuery(excl, hdr), e.arcQuery(incl, hdr)}
+	e.h.pruner.VerifSetEnabled(true)
+	verifkit.Eval()
+	verifkit.Class("cache-pair")
+	if full[0].OK && full[1].OK && len(full[1].Rows) > 0 && qCompare(full[0], full[1], false) != "" {
+		verifkit.NonTrivial("pair\x00" + excl + "\x00" + incl + strings.Join(c18FileList(l), ","))
+	}
+	for order := 0; order < 2; order++ {
+		e.h.InvalidateCaches()
+		for k := 0; k < 2; k++ {
+			i := k
+			if order == 1 {
+				i = 1 - k
+			}
+			got := e.arcQuery(texts[i], hdr)
+			if got.OK != full[i].OK {
+				t.Fatalf("VERIF-FAIL class=C18/cache-pair-one-sided-failure\nsequence (pruning on, caches not cleared in between): %q\nfailing: %q\nunpruned ok=%v err=%q pruned ok=%v err=%q", []string{texts[order], texts[1-order]}, texts[i], full[i].OK, full[i].Err, got.OK, got.Err)
+			}
+			if !got.OK {
+				continue
+			}
+			if d := qCompare(full[i], got, false); d != "" {
+				t.Fatalf("VERIF-FAIL class=C18/cache-pair-rows-differ\nnow: %s db=%s header=%q\nsequence (pruning on, caches not cleared in between):\n  1: %q\n  2: %q\nfailing: %q\nunpruned (want) vs pruned (got): %s\nfiles: %v",
+					timeOfUs(l.NowUs).Format(time.RFC3339), l.DB, hdr, texts[order], texts[1-order], texts[i], d, c18FileList(l))
+			}
+		}
+	}
+}
+
 func c18FailClass(q c18Query) string {
 	// root-cause key from the generator's knowledge of the shape
 	keys := []string{"offset-literal-cast-timestamp", "bool-structure", "suffix-column", "literal-arith", "predicate-in-comment", "range-on-one-table-only",
@@ -825,6 +897,9 @@ func TestVerifC18_Pruning(t *testing.T) {
 					verifkit.Sample(map[string]any{"sql": q.SQL, "header": q.Hdr, "now": timeOfUs(l.NowUs).Format(time.RFC3339), "files": c18FileList(l)})
 				}
 			}
+		}
+		for i := 0; i < 6; i++ {
+			c18CachePairs(t, e, l)
 		}
 		tEnv += t1.Sub(t0)
 		tQ += time.Since(t1)
